@@ -172,7 +172,7 @@ Section Func.
   Lemma init_alloc_sub : forall r, In r (allocatable (stk a0)) -> In r pool /\ ~ In r (used_registers fn).
   Proof. exact (proj1 (proj2 init_facts)). Qed.
 
-  Lemma init_sok : sok c t0 sl a0.
+  Lemma init_sok : sok c t0 a0.
   Proof.
     destruct Hin as [Hzero Hpool].
     destruct init_facts as [He [Hsub [Hal Hres]]].
@@ -191,17 +191,16 @@ Section Func.
       unfold is_reserved in Hk. apply memZ_In in Hk. split; [exact (proj2 (e_res_neg _ He r Hk))|].
       right. exists v. exact Hr.
     - exact (e_next _ He).
-    - intros k Hk. unfold is_reserved in Hk. apply memZ_In in Hk. exact (e_res_neg _ He k Hk).
-    - intros r [w Hw]. split.
-      + intros _ Hc. exact (proj2 (Hsub r Hc) (pre_in_used w r Hw)).
-      + intros Hneg. apply Hisres. split; [exact (pre_in_used w r Hw) | exact Hneg].
+    - intros k Hk _. unfold is_reserved in Hk. apply memZ_In in Hk. exact (proj2 (e_res_neg _ He k Hk)).
+    - intros r [w Hw]. destruct (Z_lt_le_dec r 0) as [Hneg|Hge].
+      + left. apply Hisres. split; [exact (pre_in_used w r Hw) | exact Hneg].
+      + right. split; [exact Hge|]. intros Hc. exact (proj2 (Hsub r Hc) (pre_in_used w r Hw)).
     - intros Hz. unfold c, mk_cfg in Hz. simpl in Hz. destruct (Hzero Hz) as [Hn0 Hnp]. split.
       + intro Hc. exact (Hn0 (proj1 (Hsub 0 Hc))).
       + intros [w Hw]. exact (Hnp w Hw).
     - intros v r Hr. exact Hr.
     - intros v Hz Hr. exfalso. unfold c, mk_cfg in Hz. simpl in Hz.
       destruct (Hzero Hz) as [_ Hnp]. exact (Hnp v Hr).
-    - intros v r Hr _. apply F_pre. exact Hr.
     - intros v r Hr Hn. unfold a0, init_state in Hr. simpl in Hr. unfold t0 in Hn. rewrite Hn in Hr. discriminate.
   Qed.
 
@@ -225,7 +224,7 @@ Section Func.
   Theorem func_preallocated : forall v r, ty0 fn v = Some r -> ty af v = Some r.
   Proof.
     intros v r H.
-    exact (so_mono c t0 sl af (final_sok c t0 sl a0 Hwf Hio cfg_zconsts init_sok eq_refl af Hrun') v r H).
+    exact (so_mono c t0 af (final_sok c t0 sl a0 Hwf Hio cfg_zconsts init_sok eq_refl af Hrun') v r H).
   Qed.
 
   Theorem func_reserved : forall v r, ty af v = Some r -> ty0 fn v = None ->
@@ -235,7 +234,7 @@ Section Func.
     intros v r H Hn.
     pose proof (final_sok c t0 sl a0 Hwf Hio cfg_zconsts init_sok eq_refl af Hrun') as Hs.
     destruct (allocate_sops_pool c sl a0 af Hrun') as [Hal Hallow].
-    destruct (so_prov c t0 sl af Hs v r H Hn) as [H1|[[H1 H2]|[[H1 [H2 H3]]|H1]]].
+    destruct (so_prov c t0 af Hs v r H Hn) as [H1|[[H1 H2]|[[H1 [H2 H3]]|H1]]].
     - left. rewrite Hal in H1. exact (proj1 (init_alloc_sub r H1)).
     - right. left. split; [exact H1|]. rewrite Hallow, init_allow in H2. exact H2.
     - right. right. left. rewrite cfg_zconsts in H3. repeat split; assumption.
@@ -265,7 +264,7 @@ Section Func.
   Proof.
     intros p s a Hl Ha.
     destruct (walk_inv c t0 sl a0 Hwf Hio cfg_zconsts init_sok eq_refl s p a Hl Ha) as [[Hs [H1 _]] [Hall _]].
-    split; [|exact (so_nodup c t0 sl a Hs)].
+    split; [|exact (so_nodup c t0 a Hs)].
     intros v Hv. destruct (Hall v Hv) as [r Hr]. exists r. split; [exact Hr | exact (H1 v r Hv Hr)].
   Qed.
 
@@ -319,7 +318,7 @@ Section Func.
         intros v Hzv. unfold asg_of, is_zero_reg in Hzv. apply andb_true_iff in Hzv. destruct Hzv as [Hz Hr].
         destruct (ty af v) as [r|] eqn:Er; [|discriminate]. apply Z.eqb_eq in Hr. subst r.
         rewrite <- cfg_zconsts.
-        apply (so_zero_ty c t0 sl af (final_sok c t0 sl a0 Hwf Hio cfg_zconsts init_sok eq_refl af Hrun') v); assumption.
+        apply (so_zero_ty c t0 af (final_sok c t0 sl a0 Hwf Hio cfg_zconsts init_sok eq_refl af Hrun') v); assumption.
       - exact Hinit.
     Qed.
   End Sem.
